@@ -436,7 +436,9 @@ def large_walk_units(prop, n, m, tier="quick"):
     """LARGE shapes: many roots, every column alive and answered inside its root, complete responses - the first request and
     one loop step with every root active (a split of the roots over several requests or walks acts only there)"""
     us = [WalkUnit(n, tuple(range(n)), m, prop, "prologue")]
-    if tier == "thorough":
+    if tier == "thorough" and m is None:
+        # (GETNEXT only: with GETBULK every dictionary insertion of the listing forks on every earlier key - twelve roots with two
+        #  repetitions take more than twenty minutes)
         us.append(WalkUnit(2 * n, tuple(range(2 * n)), m, prop, "prologue"))
         # (the step forks on "was this answer delivered before" per root: 2^n paths)
         us.append(WalkUnit(n, tuple(range(n)), m, prop, "step", tuple(range(n))))
